@@ -4,7 +4,9 @@ and Rets matrices; forms {function, value-receiver method, pointer-receiver meth
 interface contract + contradicting function contract, call through a function value, interface call whose only
 implementation has a function contract, bound method value}. The body of the specified function implements the COMPLEMENT
 flow, so consulting the body is observable. Oracle: the matrix itself - every listed flow must be reported (missing)
-and nothing outside the transitive closure of the matrix may be reported (spurious). Eager and on-demand."""
+and nothing outside the transitive closure of the matrix may be reported (spurious). Eager and on-demand.
+Two-key cases: one function reachable under two contract keys with different matrices (function + interface contract;
+two interfaces sharing an implementation), both call sites in one program, both orders: each call follows ITS contract."""
 import sys
 sys.path.insert(0, '/verif/lib')
 import vlib
